@@ -106,7 +106,7 @@ def run(ctx):
         for p_ in model.parameters():
             p_.data.normal_()
         if not impl_oracle(ctx, model, n, classes, rs, rep):
-            if ctx.n_new() >= 3:
+            if ctx.n_new(with_input_only=True) >= 3:
                 return
             continue
         if n <= 8 and n_law < (2 if quick else 12) and pad > 0:
@@ -173,7 +173,7 @@ def run(ctx):
         if not impl_oracle(ctx, b, n, 1, rs, rep):
             continue
         sample_law(ctx, b, n, rs, rep, 200000, eps)
-        if ctx.n_new() >= 3:
+        if ctx.n_new(with_input_only=True) >= 3:
             return
     # Gaussian leaves: all-missing = 0 and marginal consistency (a variable marked missing vs integrating it out numerically is not
     # available; consistency identity: marginal of a subset does not depend on how the rest is marked)
